@@ -14,23 +14,23 @@ import (
 
 // StoreOp is one operation that reached the recording Conn.
 type StoreOp struct {
-	Seq     int
-	Exch    int    // exchange that was current when the op arrived (-1 none)
-	Op      string // "get" | "set" | "delete"
-	Key     string
-	Value   []byte // value written (set) or returned to the cache (get)
-	Err     string // error returned to the cache, "" if none
+	Seq      int
+	Exch     int    // exchange that was current when the op arrived (-1 none)
+	Op       string // "get" | "set" | "delete"
+	Key      string
+	Value    []byte // value written (set) or returned to the cache (get)
+	Err      string // error returned to the cache, "" if none
 	NotExist bool
-	Fault   string // name of the injected fault, "" if none
-	Fg      bool   // arrived on the goroutine that runs the current exchange's RoundTrip
+	Fault    string // name of the injected fault, "" if none
+	Fg       bool   // arrived on the goroutine that runs the current exchange's RoundTrip
 }
 
 // Fault is an injected store misbehaviour.
 type Fault struct {
-	Name    string
-	Err     error  // return this error (the inner op is not executed unless After)
-	After   bool   // execute the inner operation, then report Err
-	Replace []byte // Get only: return these bytes instead (Err nil)
+	Name      string
+	Err       error  // return this error (the inner op is not executed unless After)
+	After     bool   // execute the inner operation, then report Err
+	Replace   []byte // Get only: return these bytes instead (Err nil)
 	DoReplace bool
 }
 
@@ -43,8 +43,8 @@ type FaultPlan func(seq int, op, key string) *Fault
 type RecStore struct {
 	Inner  driver.Conn
 	Plan   FaultPlan
-	Silent bool   // Mode R: no recording, no shared lock beyond the inner Conn's
-	Jitter func() // optional schedule perturbation
+	Silent bool                 // Mode R: no recording, no shared lock beyond the inner Conn's
+	Jitter func()               // optional schedule perturbation
 	Gate   func(op, key string) // Mode S: called before every operation
 
 	mu   sync.Mutex
